@@ -77,6 +77,7 @@ def build(cfg, log_starts, log_aux, kseed):
         return Recorder(a, log_aux)
 
     table = {
+        "HandBuilt": lambda: BordaCount(),          # placeholder: the consensus is built by hand in run_case
         "Borda": lambda: BordaCount(),
         "BordaBid": lambda: BordaCount(use_bucket_id=True),
         "Copeland": lambda: CopelandMethod(),
@@ -268,8 +269,13 @@ def run_case(case):
     except Exception as ex:
         rec["pred"] = "exc:" + type(ex).__name__
     try:
-        cons = core.with_alarm(case.get("timeout", 60), alg.compute_consensus_rankings, ds, ss,
-                               bool(case["flag"]))
+        if case["cfg"] == "HandBuilt":
+            from corankco.consensus import Consensus
+            from corankco.ranking import Ranking
+            cons = Consensus([Ranking(am.norm_ranking(c)) for c in case["cands"]], dataset=ds, scoring_scheme=ss)
+        else:
+            cons = core.with_alarm(case.get("timeout", 60), alg.compute_consensus_rankings, ds, ss,
+                                   bool(case["flag"]))
     except core.Timeout:
         rec["out"] = "timeout"
         return rec
